@@ -276,7 +276,10 @@ fn multi_bit(s: &Session, full: bool) -> Result<u64, (String, serde_json::Value,
     // server side
     let alts = altered_proofs(&m1, full);
     let bad = alts.par_iter().find_map_any(|alt| {
-        let ak = PublicKey::from_le_bytes(a_pub).unwrap();
+        let ak = match PublicKey::from_le_bytes(a_pub) {
+            Ok(k) => k,
+            Err(e) => return Some(("value-mismatch".to_string(), replay("A", &alt), format!("the honest client key is refused: {e}"))),
+        };
         let p = proof.clone();
         let alt = *alt;
         let (r, _, _) = with_script(&[0x11; 16], move || p.into_server(ak, alt).is_ok());
@@ -290,7 +293,10 @@ fn multi_bit(s: &Session, full: bool) -> Result<u64, (String, serde_json::Value,
         return Err(b);
     }
     // the unaltered proof is still accepted by a clone (guards the harness)
-    let ak = PublicKey::from_le_bytes(a_pub).unwrap();
+    let ak = match PublicKey::from_le_bytes(a_pub) {
+        Ok(k) => k,
+        Err(e) => return Err(("server-refuses-right-proof".into(), replay("M1", &m1), format!("the honest client key is refused: {e}"))),
+    };
     let pc = proof.clone();
     let (ok, _, _) = with_script(&[0x11; 16], move || pc.into_server(ak, m1).is_ok());
     if ok != Ok(true) {
